@@ -90,9 +90,11 @@ FN_FORMS = {
     "dsi": (True,  True,  True,  False),
     "dei": (True,  False, True,  True),
     "bp":  (False, False, False, False),      # block scope:  int g(void){ int f(void); return f(); }
+    "cp":  (False, False, False, False),      # int x, f(void);     prototype later in a declarator list
+    "pc":  (False, False, False, False),      # int f(void), x;     prototype first in a declarator list
 }
 FN_BLOCK = ("bp",)
-FN_ORDER = ["p", "ps", "pi", "psi", "pei", "d", "ds", "di", "dsi", "dei", "bp"]
+FN_ORDER = ["p", "ps", "pi", "psi", "pei", "d", "ds", "di", "dsi", "dei", "bp", "cp", "pc"]
 
 
 def fn_spec(k):
@@ -141,10 +143,17 @@ def fn_model(seq):
             "first_file": next((i for i, k in enumerate(seq) if k not in FN_BLOCK), None),
             # gcc counts a block-scope declaration that precedes the inline definition as a non-inline declaration
             # (6.7.4p7 speaks of file scope declarations only): implementations differ, not judged
-            "contested": bool(inline_only and seq and seq[0] in FN_BLOCK)}
+            # (also with `extern inline` before it gcc then emits nothing): any block-scope declaration that
+            # precedes the definition of an external-linkage function with an `inline` declaration is left alone
+            "contested": bool(link == "external" and any_inline and ndef and
+                              any(k in FN_BLOCK for k in seq[:defpos]))}
 
 
-def fn_class(m):
+def fn_class(m, seq=()):
+    return _fn_class(m) + ("+declarator-list" if "cp" in seq or "pc" in seq else "")
+
+
+def _fn_class(m):
     if m["linkage"] == "internal":
         return "internal-%s%s" % ("def" if m["has_def"] else "nodef", "-all-inline" if m["all_inline"] else "")
     return "external-%s" % ("inline-def-only" if m["inline_only"] else
